@@ -98,10 +98,10 @@ def run_suite_with_contracts(spec):
 
 
 def floors(tier):
-        "decided:rush_threshold_rule": 3000 * k,
-        "decided:rush_stop_by_threshold_of_a_continuing_candidate": 200 * k,
     k = 1 if tier == "quick" else 20
     return {
+        "decided:rush_threshold_rule": 3000 * k,
+        "decided:rush_stop_by_threshold_of_a_continuing_candidate": 200 * k,
         "second_experiment_interleaved_in_same_process": 100 * k,
         "decided:rung_n>=2": 5000 * k,
         "decided:max_t_stop": 100 * k,
